@@ -166,7 +166,12 @@ impl Property for P {
     type Case = Case;
     fn strategy(tier: Tier) -> BoxedStrategy<Case> {
         let mut og = OptGen::full();
-        og.width = gen::small_width(40);
+        // total width: mostly 0..40, with a tail up to a few hundred (beyond 255)
+        og.width = prop_oneof![
+            30 => (0usize..=40).boxed(),
+            1 => gen::log_count(600),
+        ]
+        .boxed();
         og.custom_splitters = true;
         let gap = || (0..GAPS.len()).prop_map(|i| GAPS[i].to_string());
         (
@@ -178,7 +183,8 @@ impl Property for P {
                 },
                 tier.max_tokens(),
             ),
-            1usize..=6,
+            // columns: mostly 1..6, with a tail up to 40 (more columns than lines)
+            prop_oneof![30 => (1usize..=6).boxed(), 1 => gen::log_count(40)],
             gen::optspec(og),
             gap(),
             gap(),
